@@ -21,6 +21,7 @@
 //   static uint64_t exact_cap(uint32_t k);         // largest n that plain updates keep exact
 //   static const bool self_merge_ok;               // x.merge(x) is supported (merges a snapshot)
 //   static bool convert_gap(uint32_t k, uint64_t n);   // state (k, n) has an empty level below the top one
+//   template<class K> static int level0_unsorted(const SK<K>&);   // 1 / 0 / -1 (not published) from to_string()
 //   template<class T> static void bound(const SK<T>&, uint32_t retained, uint64_t n, const std::string& ctx);
 //   template<class T> static void counters(const SK<T>&, const Observed&, bool after_merge);
 #ifndef VF_C07_QUANTILES_ORACLE_HPP
@@ -368,6 +369,8 @@ Observed observe(const typename F::template SK<K>& sk, Model<K>& m, Rng& r, cons
     C07_CK(inrange, "iterator|item-outside-min-max", "");
   }
   F::template bound<K>(sk, retained, n, ctx);
+  // fewer retained entries than accepted items means something was compacted, so the sketch is no longer exact
+  C07_CK(est || its.size() >= n, "is_estimation_mode|false-though-items-were-compacted", " iterated=" + std::to_string(its.size()));
   if (light) {
     // read-out without side effects: queries and the sorted view sort level 0 / the base buffer and cache the view,
     // so some sketches must reach their next merge or update without ever having been queried
@@ -380,10 +383,30 @@ Observed observe(const typename F::template SK<K>& sk, Model<K>& m, Rng& r, cons
     return o;
   }
 
-  // ---------------------------------------------------------------- sorted view
-  auto view = sk.get_sorted_view();
+  // ---------------------------------------------------------------- query items (no sketch access yet)
+  const int l0_unsorted = F::template level0_unsorted<K>(sk);     // 1 unsorted, 0 sorted, -1 not published by the sketch
+  std::vector<T> q;
   {
-    C07_CK(view.size() == retained, "sorted_view|size-ne-num_retained", " size=" + std::to_string(view.size()));
+    if (NV <= dense) q = m.v;
+    else { for (unsigned i = 0; i < dense; ++i) q.push_back(m.v[r.below(NV)]); q.push_back(m.v.front()); q.push_back(m.v.back()); }
+    // fresh points around the key range actually present
+    for (unsigned i = 0; i < dense / 2 + 2; ++i) q.push_back(TT::make(static_cast<int64_t>(r.below(4 * NV + 64)) - 8, 0xffffffffu));
+    for (int i = 0; i < TT::n_special(); ++i) { const T s = TT::special(i, 0xffffffffu); if (TT::accepted(s)) q.push_back(s); }
+    std::sort(q.begin(), q.end(), cmp);
+  }
+  std::vector<T> uq;   // strictly increasing by cmp
+  for (const T& x: q) if (uq.empty() || cmp(uq.back(), x)) uq.push_back(x);
+
+  // The query groups below run in random order and more than once per observation: the sorted view is cached by the
+  // view-based queries (get_quantile / get_CDF / get_PMF) while get_rank may take another path (REQ) and queries sort
+  // level 0 / the base buffer as a side effect, so every interleaving must give the same coherent answers, and a view
+  // object taken earlier must still be ordered after later const queries.
+  typedef decltype(sk.get_sorted_view()) View;
+
+  // ---------------------------------------------------------------- sorted view (first = also compare with the iteration)
+  auto check_view = [&](const View& view, bool first, const char* when) {
+    const std::string w = std::string(" view=") + when;
+    C07_CK(view.size() == retained, "sorted_view|size-ne-num_retained", w + " size=" + std::to_string(view.size()));
     IW ve;
     ve.reserve(view.size());
     uint64_t prev_cum = 0; bool ordered = true, increasing = true, acc_ok = true;
@@ -395,18 +418,20 @@ Observed observe(const typename F::template SK<K>& sk, Model<K>& m, Rng& r, cons
       if (i > 0 && cmp(e.first, ve.back().first)) ordered = false;
       if (cum <= prev_cum) increasing = false;
       if (vit.get_weight() != cum - prev_cum || vit.get_cumulative_weight(true) != cum || vit.get_cumulative_weight(false) != prev_cum) acc_ok = false;
-      const uint64_t w = cum - prev_cum;
-      ve.emplace_back(e.first, w);
-      if (w && !(w & (w - 1))) wmask |= w; else odd_w = true;
+      const uint64_t wt = cum - prev_cum;
+      ve.emplace_back(e.first, wt);
+      if (wt && !(wt & (wt - 1))) wmask |= wt; else odd_w = true;
       prev_cum = cum;
     }
-    C07_CK(i == view.size(), "sorted_view|iteration-count-ne-size", "");
-    C07_CK(ordered, "sorted_view|not-ordered", "");
-    C07_CK(increasing, "sorted_view|cumulative-weight-not-increasing", "");
-    C07_CK(acc_ok, "sorted_view|weight-accessors-inconsistent", "");
-    C07_CK(prev_cum == n, "sorted_view|total-weight-ne-n", " total=" + std::to_string(prev_cum));
-    o.min_weight = wmask & (~wmask + 1);
-    o.distinct_weights = popcount64(wmask) + (odd_w ? 1 : 0);
+    C07_CK(i == view.size(), "sorted_view|iteration-count-ne-size", w);
+    C07_CK(ordered, "sorted_view|not-ordered", w);
+    C07_CK(increasing, "sorted_view|cumulative-weight-not-increasing", w);
+    C07_CK(acc_ok, "sorted_view|weight-accessors-inconsistent", w);
+    C07_CK(prev_cum == n, "sorted_view|total-weight-ne-n", w + " total=" + std::to_string(prev_cum));
+    if (first) {
+      o.min_weight = wmask & (~wmask + 1);
+      o.distinct_weights = popcount64(wmask) + (odd_w ? 1 : 0);
+    }
     // the view shows the same retained (item, weight) multiset as the iterator
     if (ve.size() == its.size()) {
       auto lt = [&cmp](const std::pair<T, uint64_t>& a, const std::pair<T, uint64_t>& b) {
@@ -414,33 +439,25 @@ Observed observe(const typename F::template SK<K>& sk, Model<K>& m, Rng& r, cons
         if (TT::total_less(cmp, b.first, a.first)) return false;
         return a.second < b.second;
       };
-      std::sort(its.begin(), its.end(), lt); std::sort(ve.begin(), ve.end(), lt);
+      if (first) std::sort(its.begin(), its.end(), lt);
+      std::sort(ve.begin(), ve.end(), lt);
       bool same_items = true, same_weights = true;
       for (size_t j = 0; j < its.size(); ++j) {
         if (TT::total_less(cmp, its[j].first, ve[j].first) || TT::total_less(cmp, ve[j].first, its[j].first)) same_items = false;
         else if (its[j].second != ve[j].second) same_weights = false;
       }
-      C07_CK(same_items, "sorted_view|items-differ-from-iteration", "");
-      if (weight_sum_ok && same_items) C07_CK(same_weights, "sorted_view|weights-differ-from-iteration", "");
+      C07_CK(same_items, "sorted_view|items-differ-from-iteration", w);
+      if (weight_sum_ok && same_items) C07_CK(same_weights, "sorted_view|weights-differ-from-iteration", w);
     }
-  }
+  };
 
-  // ---------------------------------------------------------------- query items
-  std::vector<T> q;
-  {
-    if (NV <= dense) q = m.v;
-    else { for (unsigned i = 0; i < dense; ++i) q.push_back(m.v[r.below(NV)]); q.push_back(m.v.front()); q.push_back(m.v.back()); }
-    // fresh points around the key range actually present
-    for (unsigned i = 0; i < dense / 2 + 2; ++i) q.push_back(TT::make(static_cast<int64_t>(r.below(4 * NV + 64)) - 8, 0xffffffffu));
-    for (int i = 0; i < TT::n_special(); ++i) { const T s = TT::special(i, 0xffffffffu); if (TT::accepted(s)) q.push_back(s); }
-    std::sort(q.begin(), q.end(), cmp);
-  }
-  // ---------------------------------------------------------------- ranks
-  {
+  // ---------------------------------------------------------------- ranks (every `step`-th query item)
+  auto g_ranks = [&](size_t step) {
     double prev_i = 0, prev_e = 0;
     unsigned n_top = 0, n_bottom = 0;
     const double dn = static_cast<double>(n);
-    for (size_t i = 0; i < q.size(); ++i) {
+    bool have_prev = false;
+    for (size_t i = 0; i < q.size(); i += step) {
       const double ri = sk.get_rank(q[i], true);
       const double re = sk.get_rank(q[i], false);
       double wi = ri, we = re;
@@ -450,35 +467,34 @@ Observed observe(const typename F::template SK<K>& sk, Model<K>& m, Rng& r, cons
       const bool ends_ok = (!below_min || (ri == 0 && re == 0)) && (!at_or_above_max || ri == 1);
       if (at_or_above_max) ++n_top;
       if (below_min) ++n_bottom;
-      const bool ok = re >= 0 && ri <= 1 && ri >= re && (i == 0 || (ri >= prev_i && re >= prev_e)) && ri == wi && re == we && ends_ok;
+      const bool ok = re >= 0 && ri <= 1 && ri >= re && (!have_prev || (ri >= prev_i && re >= prev_e)) && ri == wi && re == we && ends_ok;
       checked(8);
       if (!ok) {
         const std::string d = " item=" + TT::show(q[i]) + " incl=" + str(ri) + " excl=" + str(re) + " prev_incl=" + str(prev_i) + " prev_excl=" + str(prev_e) +
           (est ? std::string() : " true_incl=" + str(wi) + " true_excl=" + str(we));
         C07_CK(re >= 0 && ri <= 1, "get_rank|outside-0-1", d);
         C07_CK(ri >= re, "get_rank|inclusive-lt-exclusive", d);
-        C07_CK(i == 0 || ri >= prev_i, "get_rank|inclusive-not-monotone", d);
-        C07_CK(i == 0 || re >= prev_e, "get_rank|exclusive-not-monotone", d);
+        C07_CK(!have_prev || ri >= prev_i, "get_rank|inclusive-not-monotone", d);
+        C07_CK(!have_prev || re >= prev_e, "get_rank|exclusive-not-monotone", d);
         C07_CK(ri == wi, "get_rank|exact-mode-inclusive-ne-true", d);
         C07_CK(re == we, "get_rank|exact-mode-exclusive-ne-true", d);
         C07_CK(!below_min || (ri == 0 && re == 0), "get_rank|below-min-ne-0", d);
         C07_CK(!at_or_above_max || ri == 1, "get_rank|at-or-above-max-inclusive-ne-1", d);
       }
-      prev_i = ri; prev_e = re;
+      prev_i = ri; prev_e = re; have_prev = true;
     }
-    if (!est) fcount(fam, "obs_exact_mode");
     if (n_top) fcount(fam, "obs_rank_at_or_above_max");
     if (n_bottom) fcount(fam, "obs_rank_below_min");
-  }
-  // ---------------------------------------------------------------- quantiles
-  {
+  };
+  // ---------------------------------------------------------------- quantiles (grid of about 1.5 d ranks)
+  auto g_quantiles = [&](unsigned d) {
     struct RQ { double rank; int64_t idx; };   // idx >= 0: rank == (idx + 0.5) / n, off every rounding boundary
     std::vector<RQ> rq;
     rq.push_back(RQ{0.0, -2}); rq.push_back(RQ{1.0, -3});
-    if (!flat) { for (unsigned i = 0; i < dense; ++i) rq.push_back(RQ{r.unit(), -1}); }
-    else if (N <= dense) for (uint64_t i = 0; i < N; ++i) rq.push_back(RQ{(static_cast<double>(i) + 0.5) / static_cast<double>(N), static_cast<int64_t>(i)});
-    else for (unsigned i = 0; i < dense; ++i) { const uint64_t j = r.below(N); rq.push_back(RQ{(static_cast<double>(j) + 0.5) / static_cast<double>(N), static_cast<int64_t>(j)}); }
-    for (unsigned i = 0; i < dense / 2 + 2; ++i) rq.push_back(RQ{r.unit(), -1});
+    if (!flat) { for (unsigned i = 0; i < d; ++i) rq.push_back(RQ{r.unit(), -1}); }
+    else if (N <= d) for (uint64_t i = 0; i < N; ++i) rq.push_back(RQ{(static_cast<double>(i) + 0.5) / static_cast<double>(N), static_cast<int64_t>(i)});
+    else for (unsigned i = 0; i < d; ++i) { const uint64_t j = r.below(N); rq.push_back(RQ{(static_cast<double>(j) + 0.5) / static_cast<double>(N), static_cast<int64_t>(j)}); }
+    for (unsigned i = 0; i < d / 2 + 2; ++i) rq.push_back(RQ{r.unit(), -1});
     std::sort(rq.begin(), rq.end(), [](const RQ& a, const RQ& b) { return a.rank < b.rank; });
     std::vector<T> qs;      // inclusive, exclusive alternating
     qs.reserve(2 * rq.size());
@@ -505,62 +521,103 @@ Observed observe(const typename F::template SK<K>& sk, Model<K>& m, Rng& r, cons
       const bool ex_e = !want || equiv(cmp, qe, *want);
       checked(4);
       if (!(mono_i && mono_e && ex_i && ex_e)) {
-        const std::string d = " rank=" + str(x.rank) + " incl=" + TT::show(qi) + " excl=" + TT::show(qe) +
+        const std::string d2 = " rank=" + str(x.rank) + " incl=" + TT::show(qi) + " excl=" + TT::show(qe) +
           (i ? " prev_incl=" + TT::show(qs[2 * i - 2]) + " prev_excl=" + TT::show(qs[2 * i - 1]) : std::string()) + (want ? " true=" + TT::show(*want) : std::string());
-        C07_CK(mono_i, "get_quantile|inclusive-not-monotone", d);
-        C07_CK(mono_e, "get_quantile|exclusive-not-monotone", d);
-        C07_CK(ex_i, "get_quantile|exact-mode-inclusive-ne-true", d);
-        C07_CK(ex_e, "get_quantile|exact-mode-exclusive-ne-true", d);
+        C07_CK(mono_i, "get_quantile|inclusive-not-monotone", d2);
+        C07_CK(mono_e, "get_quantile|exclusive-not-monotone", d2);
+        C07_CK(ex_i, "get_quantile|exact-mode-inclusive-ne-true", d2);
+        C07_CK(ex_e, "get_quantile|exact-mode-exclusive-ne-true", d2);
       }
     }
-  }
-  // ---------------------------------------------------------------- CDF / PMF
-  std::vector<T> uq;   // strictly increasing by cmp
-  for (const T& x: q) if (uq.empty() || cmp(uq.back(), x)) uq.push_back(x);
-  for (int rep_i = 0; rep_i < 2; ++rep_i) {
-    const unsigned mwant = rep_i == 0 ? static_cast<unsigned>(r.below(9)) : static_cast<unsigned>(std::min<size_t>(uq.size(), dense));
-    std::vector<T> sp;
-    if (mwant >= uq.size()) sp = uq;
-    else {
-      std::vector<size_t> ix;
-      for (unsigned i = 0; i < mwant; ++i) ix.push_back(r.below(uq.size()));
-      std::sort(ix.begin(), ix.end()); ix.erase(std::unique(ix.begin(), ix.end()), ix.end());
-      for (size_t j: ix) sp.push_back(uq[j]);
+  };
+  // ---------------------------------------------------------------- CDF / PMF (`reps` split-point sets: a few points, then a dense set)
+  auto g_cdf = [&](int reps, unsigned d) {
+    for (int rep_i = 0; rep_i < reps; ++rep_i) {
+      const unsigned mwant = rep_i == 0 ? static_cast<unsigned>(r.below(9)) : static_cast<unsigned>(std::min<size_t>(uq.size(), d));
+      std::vector<T> sp;
+      if (mwant >= uq.size()) sp = uq;
+      else {
+        std::vector<size_t> ix;
+        for (unsigned i = 0; i < mwant; ++i) ix.push_back(r.below(uq.size()));
+        std::sort(ix.begin(), ix.end()); ix.erase(std::unique(ix.begin(), ix.end()), ix.end());
+        for (size_t j: ix) sp.push_back(uq[j]);
+      }
+      const uint32_t ms = static_cast<uint32_t>(sp.size());
+      const T dummy = TT::make(0, 0);
+      const T* ptr = ms ? sp.data() : &dummy;
+      for (int inc = 0; inc < 2; ++inc) {
+        const bool incl = inc == 1;
+        typename F::template SK<K>::vector_double cdf, pmf;
+        try { cdf = sk.get_CDF(ptr, ms, incl); pmf = sk.get_PMF(ptr, ms, incl); }
+        catch (const std::exception& e) {
+          // split points that are unique and increasing under the sketch's comparator instance are a valid query
+          checked(); rep.bad("get_CDF-get_PMF|valid-split-points-rejected", std::string(" splits=") + std::to_string(ms) + " what=" + e.what());
+          continue;
+        }
+        const bool sizes = cdf.size() == ms + 1u && pmf.size() == ms + 1u;
+        bool cdf_rank = true, pmf_nonneg = true, pmf_diff = true;
+        double sum = 0;
+        if (sizes) for (uint32_t i = 0; i <= ms; ++i) {
+          if (i < ms && cdf[i] != sk.get_rank(sp[i], incl)) cdf_rank = false;
+          if (!(pmf[i] >= 0)) pmf_nonneg = false;
+          const double want = i == 0 ? cdf[0] : cdf[i] - cdf[i - 1];
+          if (!(std::fabs(pmf[i] - want) <= 1e-12)) pmf_diff = false;
+          sum += pmf[i];
+        }
+        const bool last1 = sizes && cdf[ms] == 1.0;
+        const bool sum1 = std::fabs(sum - 1.0) <= 1e-12;
+        checked(6);
+        if (!(sizes && cdf_rank && pmf_nonneg && pmf_diff && last1 && sum1)) {
+          const std::string d2 = " splits=" + std::to_string(ms) + " inclusive=" + std::to_string(inc) + " pmf_sum=" + str(sum) + (sizes ? " cdf_last=" + str(cdf[ms]) : std::string());
+          C07_CK(sizes, "get_CDF-get_PMF|result-size", d2);
+          C07_CK(cdf_rank, "get_CDF|ne-rank-of-split-point", d2);
+          C07_CK(last1, "get_CDF|last-ne-1", d2);
+          C07_CK(pmf_nonneg, "get_PMF|negative-mass", d2);
+          C07_CK(pmf_diff, "get_PMF|ne-CDF-differences", d2);
+          C07_CK(sum1, "get_PMF|sum-ne-1", d2);
+        }
+      }
     }
-    const uint32_t ms = static_cast<uint32_t>(sp.size());
-    const T dummy = TT::make(0, 0);
-    const T* ptr = ms ? sp.data() : &dummy;
-    for (int inc = 0; inc < 2; ++inc) {
-      const bool incl = inc == 1;
-      typename F::template SK<K>::vector_double cdf, pmf;
-      try { cdf = sk.get_CDF(ptr, ms, incl); pmf = sk.get_PMF(ptr, ms, incl); }
-      catch (const std::exception& e) {
-        // split points that are unique and increasing under the sketch's comparator instance are a valid query
-        checked(); rep.bad("get_CDF-get_PMF|valid-split-points-rejected", std::string(" splits=") + std::to_string(ms) + " what=" + e.what());
-        continue;
+  };
+
+  // ---------------------------------------------------------------- interleaving
+  {
+    std::unique_ptr<View> view0, view1;
+    bool view_based_before_first_rank = false, ranked = false, view_after_rank_after_view = false;
+    auto run_group = [&](int g, bool full) {
+      const unsigned d = full ? dense : std::max(8u, dense / 3);
+      if (g == 0) { g_ranks(full ? 1 : 3); ranked = true; }
+      else {
+        if (g == 1) g_quantiles(d); else g_cdf(full ? 2 : 1, d);
+        if (!ranked) view_based_before_first_rank = true;
+        else if (view_based_before_first_rank) view_after_rank_after_view = true;
       }
-      const bool sizes = cdf.size() == ms + 1u && pmf.size() == ms + 1u;
-      bool cdf_rank = true, pmf_nonneg = true, pmf_diff = true;
-      double sum = 0;
-      if (sizes) for (uint32_t i = 0; i <= ms; ++i) {
-        if (i < ms && cdf[i] != sk.get_rank(sp[i], incl)) cdf_rank = false;
-        if (!(pmf[i] >= 0)) pmf_nonneg = false;
-        const double want = i == 0 ? cdf[0] : cdf[i] - cdf[i - 1];
-        if (!(std::fabs(pmf[i] - want) <= 1e-12)) pmf_diff = false;
-        sum += pmf[i];
+    };
+    int perm[3] = {0, 1, 2};
+    auto shuffle3 = [&]() { for (int i = 2; i > 0; --i) std::swap(perm[i], perm[r.below(static_cast<uint64_t>(i) + 1)]); };
+    const unsigned view0_at = static_cast<unsigned>(r.below(3));     // the explicit view is taken before group 0, 1 or 2 of pass A
+    shuffle3();
+    for (unsigned gi = 0; gi < 3; ++gi) {
+      if (gi == view0_at) {
+        view0.reset(new View(sk.get_sorted_view()));
+        check_view(*view0, true, "taken-before-queries");
+        if (!ranked) view_based_before_first_rank = true; else if (view_based_before_first_rank) view_after_rank_after_view = true;
       }
-      const bool last1 = sizes && cdf[ms] == 1.0;
-      const bool sum1 = std::fabs(sum - 1.0) <= 1e-12;
-      checked(6);
-      if (!(sizes && cdf_rank && pmf_nonneg && pmf_diff && last1 && sum1)) {
-        const std::string d = " splits=" + std::to_string(ms) + " inclusive=" + std::to_string(inc) + " pmf_sum=" + str(sum) + (sizes ? " cdf_last=" + str(cdf[ms]) : std::string());
-        C07_CK(sizes, "get_CDF-get_PMF|result-size", d);
-        C07_CK(cdf_rank, "get_CDF|ne-rank-of-split-point", d);
-        C07_CK(last1, "get_CDF|last-ne-1", d);
-        C07_CK(pmf_nonneg, "get_PMF|negative-mass", d);
-        C07_CK(pmf_diff, "get_PMF|ne-CDF-differences", d);
-        C07_CK(sum1, "get_PMF|sum-ne-1", d);
-      }
+      run_group(perm[gi], true);
+    }
+    check_view(*view0, false, "earlier-view-rechecked-after-queries");
+    view1.reset(new View(sk.get_sorted_view()));
+    check_view(*view1, false, "taken-after-first-pass");
+    shuffle3();
+    for (unsigned gi = 0; gi < 3; ++gi) run_group(perm[gi], false);
+    run_group(1 + static_cast<int>(r.below(2)), false);      // a view-based group always comes last, after every get_rank
+    check_view(*view0, false, "earlier-view-rechecked-at-end");
+    check_view(*view1, false, "second-view-rechecked-at-end");
+    if (!est) fcount(fam, "obs_exact_mode");
+    if (view_after_rank_after_view) {
+      fcount(fam, "obs_view_query_after_rank_after_view_query");
+      if (l0_unsorted == 1) fcount(fam, "obs_view_rank_view_on_unsorted_level0");
+      if (l0_unsorted == 1 && !std::is_arithmetic<T>::value) fcount(fam, "obs_view_rank_view_on_unsorted_level0_nonarith");
     }
   }
   // ---------------------------------------------------------------- invalid queries are rejected
